@@ -259,9 +259,21 @@ def _mesh_generator(repo):
     if not (isinstance(mg, ast.Call) and ast.unparse(mg.func) == 'np.meshgrid' and len(mg.args) == 2
             and [(k.arg, ast.unparse(k.value)) for k in mg.keywords] == [('indexing', "'ij'")]):
         raise Refuse("mesh: np.meshgrid(..., indexing='ij') not found")
+    def intx(e, n):
+        if isinstance(e, ast.Name) and e.id == n: return 'n'
+        if isinstance(e, ast.Constant) and isinstance(e.value, int) and not isinstance(e.value, bool): return f'({e.value} : Int)'
+        if isinstance(e, ast.BinOp) and type(e.op) in (ast.Add, ast.Sub, ast.Mult):
+            return f"({intx(e.left, n)} {{ast.Add: '+', ast.Sub: '-', ast.Mult: '*'}}[type(e.op)] {intx(e.right, n)})".replace("{ast.Add: '+', ast.Sub: '-', ast.Mult: '*'}[type(e.op)]", {ast.Add: '+', ast.Sub: '-', ast.Mult: '*'}[type(e.op)])
+        raise Refuse('mesh: integer expression ' + ast.unparse(e))
     def axis(e, n, sh):
-        # np.arange(n) - np.floor(n/2.0) - shift[k]  ->  per index i:  (i - floor(n/2)) - s
-        env = {f'np.arange({n})': '((i : Int) : K)', f'np.floor({n} / 2.0)': '(((n / 2 : Int)) : K)', sh: 's'}
+        # np.arange(n) - np.floor(<int expr>/2.0) - shift[k]  ->  per index i:  (i - floor(<int expr>/2)) - s   (floor of a half = Int floor division)
+        env = {f'np.arange({n})': '((i : Int) : K)', sh: 's'}
+        for x in ast.walk(e):
+            if isinstance(x, ast.Call) and ast.unparse(x.func) == 'np.floor' and len(x.args) == 1:
+                a = x.args[0]
+                if not (isinstance(a, ast.BinOp) and isinstance(a.op, ast.Div) and isinstance(a.right, ast.Constant) and a.right.value in (2, 2.0)):
+                    raise Refuse('mesh: np.floor argument is not <int>/2.0: ' + ast.unparse(a))
+                env[ast.unparse(x)] = f'(((({intx(a.left, n)}) / 2 : Int)) : K)'
         return _real(e, env)
     row, col = axis(mg.args[0], 'nr', 'shift[0]'), axis(mg.args[1], 'nc', 'shift[1]')
     if row != col: raise Refuse('mesh: row and column coordinates are built differently')
